@@ -435,12 +435,14 @@ impl<'a, 'b> Add<&'b Substance> for &'a Substance {
                         {
                             return None;
                         }
+                        // Amounts of different dimensionality have
+                        // no sum, so they share no property either.
+                        let output = (&(&self.amount * &prop1.output)?
+                            + &(&other.amount * &prop2.output)?)?;
                         Some((
                             k.clone(),
                             Property {
-                                output: (&(&self.amount * &prop1.output).unwrap()
-                                    + &(&other.amount * &prop2.output).unwrap())
-                                    .expect("Add"),
+                                output,
                                 input_name: prop1.input_name.clone(),
                                 input: mol,
                                 output_name: prop1.output_name.clone(),
